@@ -35,41 +35,59 @@ Theorem T02_2_remove_redundant_else_preserves :
 Proof. exact remove_redundant_else_preserves. Qed.
 Print Assumptions T02_2_remove_redundant_else_preserves.
 
-(* T02.3  fixes.fix_if_return: `if c: return True / return False` -> `return c` returns the VALUE of c, not
-   its truthiness (finding F02-8): refuted for an opaque condition returning a non-bool; sound when every
-   rewritten condition is syntactically boolean (a literal or `not ...`); the mirrored form
-   (-> `return not c`) is always sound and is covered by the same partial theorem. *)
-Theorem T02_3_fix_if_return_refuted :
-  exists p, ~ obs_equiv p (fix_if_return_model p).
-Proof. exact fix_if_return_refuted. Qed.
-Print Assumptions T02_3_fix_if_return_refuted.
+(* T02.3  fixes.fix_if_return (after repair 4486780): `if c: return True / return False` -> `return c` when c is
+   a negation (a bool already), else `return bool(c)` (MiniPy: `not not c`); the mirrored form -> `return not c`.
+   Every program, the returned VALUE included.  The rule before the repair returned the value of c instead of
+   its truth value (finding F02-8, now fixed): pinned as old_*_refuted / old_*_partial (conditions syntactically
+   boolean). *)
+Theorem T02_3_fix_if_return_preserves :
+  forall p, equiv p (fix_if_return_model p).
+Proof. exact fix_if_return_preserves. Qed.
+Print Assumptions T02_3_fix_if_return_preserves.
 
-Theorem T02_3_fix_if_return_partial :
-  forall p, fir_safe (fuel_of p) p = true -> equiv p (fix_if_return_model p).
-Proof. exact fix_if_return_partial. Qed.
-Print Assumptions T02_3_fix_if_return_partial.
+Example T02_3_nontrivial :
+  fix_if_return_model [SIf (Unknown 1 []) [SReturn (RVal (VBool true))] []; SReturn (RVal (VBool false))]
+    = [SReturn (RTest (TBool (Unknown 1 [])))] /\
+  fix_if_return_model [SEv 1 []; SIf (TNot (Unknown 1 [0])) [SReturn (RVal (VBool true))] []; SReturn (RVal (VBool false))]
+    = [SEv 1 []; SReturn (RTest (TNot (Unknown 1 [0])))].
+Proof. exact fix_if_return_nontrivial. Qed.
 
-Example T02_3_partial_nontrivial :
-  let p := [SEv 1 []; SIf (TNot (Unknown 1 [0])) [SReturn (RVal (VBool true))] []; SReturn (RVal (VBool false))] in
-  fir_safe (fuel_of p) p = true /\ fix_if_return_model p <> p.
-Proof. exact fix_if_return_partial_nontrivial. Qed.
+Theorem T02_3_old_fix_if_return_refuted :
+  exists p, ~ obs_equiv p (old_fix_if_return_model p).
+Proof. exact old_fix_if_return_refuted. Qed.
+Print Assumptions T02_3_old_fix_if_return_refuted.
 
-(* T02.4  fixes.fix_if_assign (after repair 4e708bf): same value-vs-truthiness defect (finding F02-9). *)
-Theorem T02_4_fix_if_assign_refuted :
-  exists p, ~ obs_equiv p (fix_if_assign_model p).
-Proof. exact fix_if_assign_refuted. Qed.
-Print Assumptions T02_4_fix_if_assign_refuted.
+Theorem T02_3_old_fix_if_return_partial :
+  forall p, fir_safe (fuel_of p) p = true -> equiv p (old_fix_if_return_model p).
+Proof. exact old_fix_if_return_partial. Qed.
+Print Assumptions T02_3_old_fix_if_return_partial.
 
-Theorem T02_4_fix_if_assign_partial :
-  forall p, fia_safe (fuel_of p) p = true -> equiv p (fix_if_assign_model p).
-Proof. exact fix_if_assign_partial. Qed.
-Print Assumptions T02_4_fix_if_assign_partial.
+(* T02.4  fixes.fix_if_assign (after repairs 4e708bf, 4486780): `v = c` for a negation, else `v = bool(c)`; the
+   mirrored form -> `v = not c`.  Every program, the assigned VALUE included (finding F02-9, now fixed, pinned). *)
+Theorem T02_4_fix_if_assign_preserves :
+  forall p, equiv p (fix_if_assign_model p).
+Proof. exact fix_if_assign_preserves. Qed.
+Print Assumptions T02_4_fix_if_assign_preserves.
 
-Example T02_4_partial_nontrivial :
-  let p := [SIf (TNot (Unknown 1 [])) [SAssign 0 (RVal (VBool true))] [SAssign 0 (RVal (VBool false))];
-            SIf (Unknown 2 []) [SAssign 1 (RVal (VBool false))] [SAssign 1 (RVal (VBool true))]] in
-  fia_safe (fuel_of p) p = true /\ fix_if_assign_model p <> p.
-Proof. exact fix_if_assign_partial_nontrivial. Qed.
+Example T02_4_nontrivial :
+  fix_if_assign_model
+    [SIf (Unknown 1 []) [SAssign 0 (RVal (VBool true))] [SAssign 0 (RVal (VBool false))]; SReturn (RVar 0)]
+  = [SAssign 0 (RTest (TBool (Unknown 1 []))); SReturn (RVar 0)] /\
+  fix_if_assign_model
+    [SIf (TNot (Unknown 1 [])) [SAssign 0 (RVal (VBool true))] [SAssign 0 (RVal (VBool false))];
+     SIf (Unknown 2 []) [SAssign 1 (RVal (VBool false))] [SAssign 1 (RVal (VBool true))]]
+  = [SAssign 0 (RTest (TNot (Unknown 1 []))); SAssign 1 (RTest (TNot (Unknown 2 [])))].
+Proof. exact fix_if_assign_nontrivial. Qed.
+
+Theorem T02_4_old_fix_if_assign_refuted :
+  exists p, ~ obs_equiv p (old_fix_if_assign_model p).
+Proof. exact old_fix_if_assign_refuted. Qed.
+Print Assumptions T02_4_old_fix_if_assign_refuted.
+
+Theorem T02_4_old_fix_if_assign_partial :
+  forall p, fia_safe (fuel_of p) p = true -> equiv p (old_fix_if_assign_model p).
+Proof. exact old_fix_if_assign_partial. Qed.
+Print Assumptions T02_4_old_fix_if_assign_partial.
 
 (* T02.5  fixes.swap_if_else (explicit and implicit forms, all heuristics, the 5-pass driver): sound for
    every program; the negation it builds is the exact complement on truthiness and performs the same
@@ -132,20 +150,22 @@ Example T02_9_partial_nontrivial_head :
   breakout_common_code_model p = [SAssign 0 (RVal (VBool true)); SIf (Unknown 1 [1]) [SEv 2 [0]] [SEv 3 [0]]].
 Proof. exact breakout_partial_nontrivial_head. Qed.
 
-(* T02.10  fixes.move_before_loop (on loops with straight-line bodies; findings F02-22, F02-11): refuted
-   for a loop that may run zero times, and -- even for a loop that certainly runs -- when the moved variable
-   is assigned again later in the body.  Sound when every loop out of which something is moved certainly
-   runs at least once (`for` over a non-empty literal, `while <truthy literal>`), the moved statement
-   assigns a constant and its variable is assigned nowhere else in the body. *)
+(* T02.10  fixes.move_before_loop (on loops with straight-line bodies, after repairs d47dff7, eeaceb7, 6970620;
+   finding F02-22): refuted for a loop that may run zero times.  Sound when every loop out of which something is
+   moved certainly runs at least once (`for` over a non-empty literal, `while <truthy literal>`), the moved
+   statement assigns a constant and its variable is assigned nowhere else in the body.  Before d47dff7 the rule
+   also moved a variable that is read and assigned again later in the body (F02-11, fixed): the old output is
+   pinned as not equivalent, the repaired rule refuses that loop. *)
 Theorem T02_10_move_before_loop_refuted :
   exists p, ~ obs_equiv p (move_before_loop_model p).
 Proof. exact move_before_loop_refuted. Qed.
 Print Assumptions T02_10_move_before_loop_refuted.
 
-Theorem T02_10_move_before_loop_refuted_reassigned :
-  exists p h b e, p = [SLoop h b e] /\ runs_once h = true /\ ~ obs_equiv p (move_before_loop_model p).
-Proof. exact move_before_loop_refuted_reassigned. Qed.
-Print Assumptions T02_10_move_before_loop_refuted_reassigned.
+Theorem T02_10_old_move_before_loop_refuted_reassigned :
+  ~ obs_equiv mbl_witness_reassigned mbl_witness_reassigned_old_output
+  /\ move_before_loop_model mbl_witness_reassigned = mbl_witness_reassigned.
+Proof. exact old_move_before_loop_refuted_reassigned. Qed.
+Print Assumptions T02_10_old_move_before_loop_refuted_reassigned.
 
 Theorem T02_10_move_before_loop_partial :
   forall p, mbl_safe (fuel_of p) p = true -> equiv p (move_before_loop_model p).
